@@ -17,7 +17,7 @@ import mmap as _real_mmap
 from whoosim import simthreads
 from whoosim.kernel import HarnessError
 
-REPO_SRC = "/repo/src"
+REPO_SRC = _real_os.environ.get("WHOOSIM_REPO", "/repo") + "/src"
 
 # the real callables, captured before any tripwire wraps them
 _R_TIME, _R_SLEEP, _R_PERF = _real_time.time, _real_time.sleep, _real_time.perf_counter
